@@ -444,6 +444,14 @@ func Verif_C15_LMove() {
 	}
 	if !same {
 		c15PostList(s, src, srcRest, "C15.lmove.src_post")
+		// the two keys must not share a backing array, or a later push to one rewrites the other
+		a, _ := storedList(s, 0, src)
+		b, _ := storedList(s, 0, dst)
+		vr.Assert(!sharesBacking(a, b), "C15.lmove.noalias")
+		// ... demonstrated by a follow-up write to the source
+		_, err2, p2 := verifRun(s, "RPUSH", src, vr.Tok("x"))
+		vr.Assert(!p2 && err2 == nil, "C15.lmove.then_rpush")
+		c15PostList(s, dst, wantDst, "C15.lmove.dst_after_src_push")
 	}
 	c15PostList(s, dst, wantDst, "C15.lmove.dst_post")
 	vr.Reach("end")
